@@ -156,7 +156,13 @@ def domain(updater):
                           {'key': 'b', 'state': {'y': 9}}]},
                 {'_delete': ['a']}, {'a': {'x': 5}}, {'a': {'w': 7}},
                 {'_add': [{'key': 'c', 'state': {}}], 'a': {'x': 2}},
-                {'b': {'y': 4}, '_delete': ['a']}]
+                {'b': {'y': 4}, '_delete': ['a']},
+                # replace an entry: delete and add the same key in ONE
+                # update (the keys are processed in the order given)
+                {'_delete': ['a'], '_add': [{'key': 'a',
+                                             'state': {'x': 9}}]},
+                {'_add': [{'key': 'c', 'state': {'z': 1}}],
+                 '_delete': ['c']}]
         for v in vals:
             ok = []
             for u in upds:
